@@ -13,10 +13,10 @@ from vlib import log
 PID = "C01"
 
 
-def gen(maxln, depth, fixed="1", timeout=3400):
-    r = vlib.run_tlc("Gen_Stark", "Gen_Stark", workers=8, env={"ST_MAXLN": maxln, "ST_FIXED": fixed, "ST_DEPTH": depth},
+def gen(maxln, depth, fixed="1", timeout=3400, sound="0"):
+    r = vlib.run_tlc("Gen_Stark", "Gen_Stark", workers=8, env={"ST_MAXLN": maxln, "ST_FIXED": fixed, "ST_DEPTH": depth, "ST_SOUND": sound},
                      timeout=timeout, xmx="8g", tag="Gen_Stark_%s_%s" % (maxln, depth))
-    stmts = [p for p in r.printed if "ln" in p]
+    stmts = [p for p in r.printed if "t" in p]
     # VIEW collapses states, but Emit is evaluated per generated state: de-duplicate
     seen = {}
     for s in stmts:
@@ -66,7 +66,7 @@ def run(tier, seed):
     if rb.violation != "HonestOK":
         raise vlib.ToolError("self-test: pre-fix variant of Stark.tla not refuted (%s)" % rb.violation)
     if tier == "quick":
-        stmts = [s for s in stmts if s["width"] <= 64 or s["ln"] <= 4]
+        stmts = [s for s in stmts if s["t"]["width"] <= 64 or s["t"]["ln"] <= 4]
     scs = [starkgen.scenario(t, i, seed) for i, t in enumerate(stmts)]
     obs = run_scenarios(exe, "complete", scs, wd, "complete_dbg")
     ok = sum(1 for sc, o in zip(scs, obs) if judge_complete(v, sc, o, "dbg"))
